@@ -5,8 +5,6 @@ import (
 	"time"
 
 	"github.com/atlassian/gostatsd"
-	"github.com/atlassian/gostatsd/pkg/backends/graphite"
-	"github.com/atlassian/gostatsd/pkg/backends/statsdaemon"
 )
 
 // FlushIn is one flush of a sequence case.
@@ -66,7 +64,7 @@ func startSender(b gostatsd.Backend) (stop func() []string) {
 func relaySequence(in *input, cfg BackendCfg, flushes []*input) []bres {
 	out := make([]bres, len(flushes))
 	uc := newUDPCapture()
-	cli, err := statsdaemon.NewClient(uc.conn.LocalAddr().String(), time.Second, 5*time.Second, cfg.DT, false, nil, quiet)
+	cli, err := newRelay(in, uc.conn.LocalAddr().String(), cfg.DT, false)
 	if err != nil {
 		out[0].monitors = append(out[0].monitors, "statsdaemon.NewClient: "+err.Error())
 		return out
@@ -98,8 +96,7 @@ func relaySequence(in *input, cfg BackendCfg, flushes []*input) []bres {
 func graphiteSequence(in *input, cfg BackendCfg, flushes []*input) []bres {
 	out := make([]bres, len(flushes))
 	tc := newTCPCapture()
-	cli, err := graphite.NewClient(tc.ln.Addr().String(), time.Second, 5*time.Second, graphite.DefaultGlobalPrefix, graphite.DefaultPrefixCounter,
-		graphite.DefaultPrefixTimer, graphite.DefaultPrefixGauge, graphite.DefaultPrefixSet, cfg.Suffix, cfg.Mode, in.subtypes(), quiet)
+	cli, err := newGraphite(in, cfg, tc.ln.Addr().String())
 	if err != nil {
 		out[0].monitors = append(out[0].monitors, "graphite.NewClient: "+err.Error())
 		return out
